@@ -204,6 +204,12 @@ def generated_inputs(ctx: Ctx, per_format: int):
                 raise HarnessError(f"renderer {label} failed: {e}")
     for fmt, prof in sorted(PROFILES.items()):
         collect(fmt, model.documents(prof, max_blocks=6), prof["render"], prof["ext"], per_format)
+    def _wide_table(d):
+        return any(b["k"] == "tbl" and len(b["rows"]) >= 2 and max(len(r) for r in b["rows"]) >= 2 for u in d["units"] for b in model.walk_blocks(u["blocks"]))
+    for fmt in ("odt", "odp"):
+        # tables whose first row is one merged cell: the extractor stores ragged rows, which an observer must not normalise in place
+        prof = PROFILES[fmt]
+        collect(fmt + "-span", model.documents(prof, max_blocks=6).filter(_wide_table), lambda d, prof=prof: prof["render"](d, opts={"span_first_cell": True, "run_space": True}), prof["ext"], max(3, per_format // 2))
     for fmt, fn in (("xlsx", sheets.render_xlsx), ("ods", sheets.render_ods), ("xls", sheets.render_xls)):
         collect("grid-" + fmt, sheets.grids(fmt, headers="any"), fn, fmt, per_format)
     for fmt in c14.FORMATS_IMG:
